@@ -184,8 +184,19 @@ def syncRankS {σ : Type} (nm : σ → Int → Nat × σ) (w : World) (q : Nat) 
 def syncS {σ : Type} (nm : σ → Int → Nat × σ) (w : World) (ss : List σ) : List (RankState × σ) :=
   (w.zip ss).mapIdx fun q x => syncRankS nm w q x
 
-/-- the counting numberer used by the harness: hands out `base, base+1, …` -/
+/-- a counting numberer: hands out `base, base+1, …` (state = number of calls so far) -/
 def countingNumberer (base : Nat) : Nat → Int → Nat × Nat := fun c _ => (base + c, c + 1)
+
+/-- any numberer together with a counter of its calls -/
+def counted {σ : Type} (nm : σ → Int → Nat × σ) : σ × Nat → Int → Nat × (σ × Nat) :=
+  fun s g => ((nm s.1 g).1, ((nm s.1 g).2, s.2 + 1))
+
+/-- the numberer object of the harness: recycles the slots of a free list (front first), then hands out fresh
+numbers `next, next+1, …`; state = (free list, next) -/
+def slotNumberer : List Nat × Nat → Int → Nat × (List Nat × Nat) := fun s _ =>
+  match s.1 with
+  | x :: xs => (x, (xs, s.2))
+  | [] => (s.2, ([], s.2 + 1))
 
 /-- `repairLocalIndexPointers`: position of the pair `(global, attribute)` in the index set -/
 def resolve (idx : List IdxEntry) (en : RemEntry) : Option Nat :=
